@@ -53,6 +53,32 @@ def check_assembly(case, ctx):
         KG = dense(ass.calc_kG0(silent=True))
         KM = dense(ass.calc_kM(silent=True))
         Kc = dense(ass.get_k0_conn()) if conn else np.zeros((size, size))
+    # the connection matrices themselves, from the independent reference of C12 (interface mismatch energy) with the package's
+    # penalty constants - not the assembly's own get_k0_conn
+    if conn:
+        from compmech.panel.connections import calc_kt_kr
+        from .C12 import ref_conn, _embed2
+        Kc_ref = np.zeros((size, size))
+        for cn in case['conn']:
+            i1, i2 = cn['p1'], cn['p2']
+            q1, q2 = panels[i1], panels[i2]
+            pd1, pd2 = pkg.make_pdef(case['panels'][i1]), pkg.make_pdef(case['panels'][i2])
+            ctype = {'SSycte': 'ycte', 'BFycte': 'ycte', 'SSxcte': 'xcte', 'BFxcte': 'xcte', 'SB': 'bot-top'}[cn['func']]
+            with package(name + '.calc_kt_kr'):
+                kt, kr = calc_kt_kr(q1, q2, ctype)
+            if cn['func'] in ('SSycte', 'BFycte'):
+                pos1, pos2 = cn['pos1'] * pd1.b, cn['pos2'] * pd2.b
+            elif cn['func'] in ('SSxcte', 'BFxcte'):
+                pos1, pos2 = cn['pos1'] * pd1.a, cn['pos2'] * pd2.a
+            else:
+                pos1 = pos2 = None
+            dsb = (pkg.lam_h(case['panels'][i1]) + pkg.lam_h(case['panels'][i2])) / 2.
+            Kc_ref += _embed2(ref_conn(cn['func'], pd1, pd2, kt, kr if kr is not None else 0., pos1, pos2, dsb), pd1.ndof, pd2.ndof,
+                              q1.row_start, q2.row_start, size)
+        ctx.label(*['conn:%s:%s' % (cn['func'], 'p1-first' if panels[cn['p1']].row_start < panels[cn['p2']].row_start else 'p2-first')
+                    for cn in case['conn']])
+        ctx.close('k0_conn', Kc, Kc_ref, 1e-9, bucket=name + '.k0_conn!=sum-of-connection-matrices')
+        Kc = Kc_ref
     S0 = Kc.copy()
     SG = np.zeros((size, size))
     SM = np.zeros((size, size))
